@@ -226,30 +226,51 @@ func genC11(r *prng.R, i int) Scenario {
 // duplicate entry names: the same child listed twice, or two pool members sharing a name
 func genC11Dup(r *prng.R, i int) Scenario {
 	sc := Scenario{ID: fmt.Sprintf("c11dup-%d", i), Family: "c11dup"}
-	switch i % 4 {
+	one := func(pool []ChildSpec, init, next []Entry) {
+		sc.Pool = pool
+		sc.Init = init
+		sc.Ops = []Op{{Op: "run"}, {Op: "wait"}, {Op: "reload", Cb: "some", Cfg: next}, {Op: "wait"},
+			{Op: "stop"}, {Op: "wait"}, {Op: "end"}}
+	}
+	switch i % 10 {
 	case 3: // old [a,b], new [a,a2]: a2 is a distinct runnable whose String() is a's (blocking Stop)
-		sc.Pool = randPool(r, 3, "S", 5)
-		sc.Pool[2].Name = 0
-		sc.Pool[2].Style = "U"
-		sc.Init = []Entry{{0, 0}, {1, 0}}
-		sc.Ops = []Op{{Op: "run"}, {Op: "wait"}, {Op: "reload", Cb: "some", Cfg: []Entry{{0, 1}, {2, 1}}}, {Op: "wait"},
-			{Op: "stop"}, {Op: "wait"}, {Op: "end"}}
+		p := randPool(r, 3, "S", 5)
+		p[2].Name = 0
+		p[2].Style = "U"
+		one(p, []Entry{{0, 0}, {1, 0}}, []Entry{{0, 1}, {2, 1}})
 	case 0: // old [a,b], new [a,a]
-		sc.Pool = randPool(r, 2, "S", 5)
-		sc.Init = []Entry{{0, 0}, {1, 0}}
-		sc.Ops = []Op{{Op: "run"}, {Op: "wait"}, {Op: "reload", Cb: "some", Cfg: []Entry{{0, 1}, {0, 2}}}, {Op: "wait"},
-			{Op: "stop"}, {Op: "wait"}, {Op: "end"}}
+		one(randPool(r, 2, "S", 5), []Entry{{0, 0}, {1, 0}}, []Entry{{0, 1}, {0, 2}})
 	case 1: // two distinct children with one name: old [a,b,c'] new [a,c',c] where name(c') = name(c)
-		sc.Pool = randPool(r, 4, "S", 5)
-		sc.Pool[3].Name = 2
-		sc.Init = []Entry{{0, 0}, {1, 0}, {2, 0}}
-		sc.Ops = []Op{{Op: "run"}, {Op: "wait"}, {Op: "reload", Cb: "some", Cfg: []Entry{{0, 1}, {2, 1}, {3, 1}}}, {Op: "wait"},
-			{Op: "stop"}, {Op: "wait"}, {Op: "end"}}
-	default: // old [a,b,c], new [c,a,a]
-		sc.Pool = randPool(r, 3, "S", 5)
-		sc.Init = []Entry{{0, 0}, {1, 0}, {2, 0}}
-		sc.Ops = []Op{{Op: "run"}, {Op: "wait"}, {Op: "reload", Cb: "some", Cfg: []Entry{{2, 1}, {0, 1}, {0, 3}}}, {Op: "wait"},
-			{Op: "stop"}, {Op: "wait"}, {Op: "end"}}
+		p := randPool(r, 4, "S", 5)
+		p[3].Name = 2
+		one(p, []Entry{{0, 0}, {1, 0}, {2, 0}}, []Entry{{0, 1}, {2, 1}, {3, 1}})
+	case 2: // old [a,b,c], new [c,a,a]
+		one(randPool(r, 3, "S", 5), []Entry{{0, 0}, {1, 0}, {2, 0}}, []Entry{{2, 1}, {0, 1}, {0, 3}})
+	case 4: // same length, same name SET, different multiplicities: old [a,a,b], new [a,b,b] (H3 of the second audit)
+		one(randPool(r, 2, "S", 5), []Entry{{0, 0}, {0, 1}, {1, 0}}, []Entry{{0, 2}, {1, 1}, {1, 2}})
+	case 5: // ... and a permutation of it: old [b,a,a], new [a,b,b]; then back
+		one(randPool(r, 2, "S", 5), []Entry{{1, 0}, {0, 0}, {0, 1}}, []Entry{{0, 2}, {1, 1}, {1, 2}})
+		sc.Ops = append(sc.Ops[:4:4], Op{Op: "reload", Cb: "some", Cfg: []Entry{{0, 3}, {0, 4}, {1, 3}}}, Op{Op: "wait"},
+			Op{Op: "stop"}, Op{Op: "wait"}, Op{Op: "end"})
+	case 6: // same multiset, permuted: old [a,a,b], new [a,b,a] - genuinely unchanged, in place
+		one(randPool(r, 2, "S", 5), []Entry{{0, 0}, {0, 1}, {1, 0}}, []Entry{{0, 2}, {1, 1}, {0, 3}})
+	case 7: // four entries over three names: old [a,a,b,c], new [a,b,b,c] / [a,b,c,c]
+		nc := []Entry{{0, 1}, {1, 1}, {1, 2}, {2, 1}}
+		if r.Bool() {
+			nc = []Entry{{0, 1}, {1, 1}, {2, 1}, {2, 2}}
+		}
+		one(randPool(r, 3, "S", 5), []Entry{{0, 0}, {0, 1}, {1, 0}, {2, 0}}, nc)
+	case 8: // H4 of the second audit: a DIFFERENT runnable object with the same String(): old [x], new [x'] - same
+		// names, so the reload is taken in place: x' (never started, blocking Stop) gets ReloadWithConfig, x keeps running
+		p := randPool(r, 2, "S", 5)
+		p[1].Name = 0
+		p[1].Style = "U"
+		one(p, []Entry{{0, 0}}, []Entry{{1, 1}})
+	default: // ... with a bystander, and x' non-blocking: old [x,y], new [x',y]
+		p := randPool(r, 3, "S", 5)
+		p[2].Name = 0
+		p[2].Style = "N"
+		one(p, []Entry{{0, 0}, {1, 0}}, []Entry{{2, 1}, {1, 1}})
 	}
 	return sc
 }
